@@ -12,12 +12,14 @@ def idhex(v):
     return int(v).to_bytes(32, 'little').hex()
 
 
-def alist(entries, omit_all=False, hid=None):
+def alist(entries, omit_all=False, hid=None, flagged=()):
     """entries: list of (idx, value or None for 'omit from keys') sorted by idx.
-    hid: optional {idx: id} - the id field carried by hidden entries (the API gives it no meaning, so any value must be ignored)"""
+    hid: optional {idx: id} - the id field carried by hidden entries (the API gives it no meaning, so any value must be ignored)
+    flagged: indices of VALUE entries that carry the omit-from-keys flag as well - only for lists handed to operations that build the
+    attribute product of a ciphertext / signature check (encrypt, precompute, verify), where the flag has no meaning and the value counts"""
     s = 'o%d' % (1 if omit_all else 0)
     for idx, v in entries:
-        s += ',%d:%s:%d' % (idx, idhex((hid or {}).get(idx, 0) if v is None else v), 1 if v is None else 0)
+        s += ',%d:%s:%d' % (idx, idhex((hid or {}).get(idx, 0) if v is None else v), 1 if (v is None or idx in flagged) else 0)
     return s
 
 
@@ -182,8 +184,10 @@ class Script:
     def checkkey(self, kid, pid, pattern, how):
         self.add('checkkey %d %d %s %d' % (kid, pid, alist(fixed_list(pattern)), self.seed()), 'checkkey', pattern=pattern, how=how)
 
-    def dec(self, kid, pid, entries, expect, mod=0, why=''):
-        self.add('dec %d %d %s %d %d' % (kid, pid, alist(entries), self.seed(), mod), 'dec', expect=expect, mod=mod, why=why, entries=entries)
+    def dec(self, kid, pid, entries, expect, mod=0, why='', flag_some=False):
+        flagged = {i for i, v in entries if v is not None and self.rng.random() < 0.5} if flag_some else ()
+        self.add('dec %d %d %s %d %d' % (kid, pid, alist(entries, False, None, flagged), self.seed(), mod), 'dec', expect=expect, mod=mod,
+                 why=why + ('/flagged-entries' if flagged else ''), entries=entries)
 
 
 def parse_kv(tokens):
